@@ -353,6 +353,11 @@ def observe(s, light=False):
             except BaseException as e:  # noqa: BLE001
                 M = None
                 o['build'] = _with_cause(e)
+            if 'build' in o:
+                # does every generated code string compile on its own?  (yes: the defect is in how build_model embeds the code;
+                # no: the syntax check of parse_model let a statement through that does not compile)
+                ok = all(pc.compile_outcome(x.code)[0] == 'ok' for x in emitted_syms)
+                o['standalone'] = 'standalone-ok' if ok else 'standalone-fails'
             if M is not None:
                 try:
                     M(range(3))
@@ -374,7 +379,9 @@ def judge(s, o):
                     'parse_model raised %s (not one of its own errors) from %s' % (o['cs'], o.get('cs_site'))))
     if o['cs'] == 'ok':
         if 'build' in o:
-            out.append(('build_model|' + o['build'], 'parse_model returned with the syntax check on but build_model raised ' + o['build']))
+            out.append(('build_model|%s|%s' % (o['build'], o.get('standalone', '?')),
+                        'parse_model returned with the syntax check on but build_model raised %s (the generated code of every statement %s)'
+                        % (o['build'], 'compiles on its own' if o.get('standalone') == 'standalone-ok' else 'does NOT all compile on its own')))
         if 'inst' in o:
             out.append(('instantiate|' + o['inst'], 'parse_model returned and build_model succeeded but the class cannot be instantiated: ' + o['inst']))
         if o.get('count_class'):
@@ -468,6 +475,7 @@ CORPUS = [
     '```\nx = 1\n```\n```\nx = 1\n```', '`x = 1`\n`x = 1`', 'Y = X\n```\nz = 1\n```\nY = X',
     'Y = f(X) + {f}', 'Y = {f} + f(X)', 'Y = scale(X)\nZ = {scale} * Y', 'Z = {scale} * X\nY = scale(Z)', 'Y = {a} + <a>', 'Y = <a>\nZ = {a}', 'Y = f(X) + <f>', 'Y = f(X)\nf = 1',
     '```\n a=1\n```', '```\n a=1\nb=2\n```', '```\n\ta=1\n```', '` a = 1`', '{p} = X', '<e> = X + 1', 'f(2) = X', '`a` = X', 'Y = C + G\n{a} = Y * 2\nC = {a} * Y[-1]',
+    '```\nif self.k:\n\\\n    pass\n```',                 # NEW: a backslash continuation line in a fenced block breaks when build_model indents the code
     'status = 1', 'Y = lags', 'Y = {check}', '`x = 1; from os import *`',                          # NEW: accepted but cannot be built / instantiated
     'Y = ' + '+'.join(['X'] * 3000), 'Y = ' + '-' * 6000 + 'X',                                   # NEW: RecursionError / MemoryError from compile()
     'Y = ' + '(' * 250 + 'X' + ')' * 250, 'Y = X[' + '1' * 5000 + ']',
